@@ -211,7 +211,27 @@ fn c15_huffman_decode_len0_1() {
     huffman_case(vec![b0], &[b0, 0, 0, 0], 1, 1);
 }
 
-/// @check C15,C06 thorough cost=900 timeout=3600
+/// @check C15,C11,C06 quick cost=300 timeout=1500
+/// Two-byte strings whose first byte is 'a' (5-bit code) followed by three one bits, every second byte: whatever follows
+/// the last symbol across the byte boundary is checked against the RFC 7541 rule (a longer code that completes, ones
+/// padding, padding that is not all ones).
+#[kani::proof]
+#[kani::unwind(18)]
+fn c15_huffman_decode_second_byte_after_5bit_symbol() {
+    let b1: u8 = kani::any();
+    huffman_case(vec![0x1f, b1], &[0x1f, b1, 0, 0], 2, 3);
+}
+
+/// @check C15,C11,C06 quick cost=300 timeout=1500
+/// Same with a first byte made of a 6-bit code ('b' = 100011) and two one bits.
+#[kani::proof]
+#[kani::unwind(18)]
+fn c15_huffman_decode_second_byte_after_6bit_symbol() {
+    let b1: u8 = kani::any();
+    huffman_case(vec![0x8f, b1], &[0x8f, b1, 0, 0], 2, 3);
+}
+
+/// @check C15,C11,C06 thorough cost=900 timeout=3600
 /// Huffman decoding of every 2-byte string agrees with the independent RFC 7541 decoder.
 #[kani::proof]
 #[kani::unwind(18)]
